@@ -22,7 +22,8 @@ CHECKS = {
         text='Decides snapshot completeness for all histories: the set of Database fields that any function reachable from the '
              'statement executors writes or mutably borrows must be contained in the fields BEGIN clones and ROLLBACK assigns; '
              'rollback must assign *catalog and *tables from original_* clones; COMMIT must not restore; the transaction '
-             'executors must reach the storage calls. Field privacy makes the writer set closed-world.',
+             'executors must reach the storage calls. Field privacy makes the writer set closed-world. Database.operations is captured and restored through '
+         'methods: one level down, every field of Operations that statement execution writes is read under BEGIN and written under ROLLBACK.',
         note='Not decided: that derived Clone is deep; session state (role, security flag, session variables, sql_mode) is '
              'declared non-transactional with reasons.',
         design='§4 C13 (plan) and §10.3 (as built)'),
@@ -71,7 +72,10 @@ CHECKS['C10'] = dict(
     technique='must-pass-through (no shortcut) analysis of uniqueness validators; inter-procedural must-precede of row validation before insert/update mutation sites',
     text='Decides that every PRIMARY KEY/UNIQUE uniqueness validator, once it fetched the table, can answer Ok only after consulting the '
          'table\'s key structures (no shortcut path), and that every insert/update mutation site reachable from INSERT/UPDATE is preceded '
-         'on every path by the row validators of its statement. Path properties: they hold for every statement history.',
+         'on every path by the row validators of its statement. Path properties: they hold for every statement history. Later clauses, each written '
+         'from a demonstrated and repaired defect: the rows of one statement are compared with each other where validation and application are '
+         'separate loops (batch uniqueness), a row computed from assignments is validated before it is written, ALTER TABLE / CREATE UNIQUE INDEX '
+         'install a constraint only over existing rows that satisfy it, per-constraint positions come from unfiltered enumerations.',
     note='Not decided: correctness of the hash indexes themselves (C15), CHECK expression semantics, value-level flags that switch '
          'validators on (bulk transfer: presence of the calls is checked instead).',
     design='§4 C10 (plan) and §10.3 (as built)')
@@ -86,7 +90,9 @@ CHECKS['C33'] = dict(
     technique='must-follow (catalog re-registration after Table::schema_mut), must-pass-through lists for DROP/CREATE paths, no-error-exit after the first of two registration steps',
     text='Decides dual-schema coherence: every executor function that changes a stored table schema re-registers it in the catalog on every '
          'successful path; DROP TABLE / DROP INDEX / CREATE TABLE pass through both the catalog and the storage side; CREATE INDEX performs '
-         'both registration steps and is examined for error exits between them.',
+         'both registration steps and is examined for error exits between them. Also: the re-registration of a table that stays is in place '
+         '(Catalog::drop_table would drop its triggers), sibling lookups derive registry keys the same way, and the column-name cache of a table '
+         'definition follows every structural change of its column list.',
     note='Not decided: identifier case handling (runtime strings); I/O failures of disk-backed index creation.',
     design='§4 C33 (plan) and §10.3 (as built)')
 
@@ -210,9 +216,12 @@ CHECKS['C08'] = dict(
     text='Decides the clause "the order is the same whether it comes from sorting or from an index" as far as it is structural: the sorting path places NULLs '
          'last (checked on compare_sql_values), an index keeps NULL keys first, so every producer of an "already sorted" claim must re-decide the claim under a '
          'test that no ordering column of the fetched rows is NULL. Written from a demonstrated defect (ORDER BY k and ORDER BY k LIMIT n returned the NULL rows '
-         'first once an index on k existed); fires on the pre-repair commit.',
-    note='The property was listed as not applicable in the plan; that stands for sortedness, LIMIT/OFFSET slicing and DISTINCT, which are properties of run-time '
-         'sequences. Agreement of index key order with the comparator for non-NULL keys is the C02 key pipeline.',
+         'first once an index on k existed); fires on the pre-repair commit. Seven more sibling-agreement / path clauses, each from a demonstrated and '
+         'repaired defect: ORDER BY of a set operation orders the combined result; multi-key comparators are lexicographic; LIMIT/OFFSET cut only the '
+         'final sequence (decided by "no set operation" and "not DISTINCT or after apply_distinct") and no result path forgets them; NULLS LAST does not '
+         'depend on the direction in any ORDER BY comparator; every ORDER BY key builder decides positions; no result path de-duplicates on its own.',
+    note='The property was listed as not applicable in the plan; that stands for sortedness of non-NULL keys, the arithmetic of the slice and the distinctness of the '
+         'returned rows, which are properties of run-time sequences: decided is where and by whom ordering, cutting and de-duplication are done. Agreement of index key order with the comparator for non-NULL keys is the C02 key pipeline.',
     design='§10.3 C08 (as built) and §10.4')
 
 CHECKS['C05'] = dict(
@@ -221,7 +230,9 @@ CHECKS['C05'] = dict(
     text='Decides three structural necessary conditions of "rewrites and join algorithms preserve meaning": every join operator builds its result with a schema '
          'rooted at its first input (rows are laid out left, right); the anti join produced for NOT IN carries the IS NULL alternatives of both '
          'operands; NOT EXISTS is never decorrelated to NOT IN. Each rule was written from a defect demonstrated on the pinned tree (wrong column values under '
-         'RIGHT JOIN, NOT IN / NOT EXISTS answers under NULLs), fires on the pre-repair commit and passes after the repairs.',
+         'RIGHT JOIN, NOT IN / NOT EXISTS answers under NULLs), fires on the pre-repair commit and passes after the repairs. Later clauses of the same kind: '
+         'the OR-branch hash-join analysis records every branch, the outer WHERE is not pushed into a semi/anti join input, both operands of an IN join '
+         'condition are qualified, and the subquery rewrites and subquery-to-join conversions leave a subquery with its own LIMIT/OFFSET alone.',
     note='The property was listed as not applicable in the plan (plan equivalence is semantic); that stands for join-order independence and value agreement of '
          'the join algorithms.',
     design='§10.3 C05 (as built) and §10.4')
